@@ -179,7 +179,22 @@ func mutateV6(t *rapid.T, b []byte) []byte {
 	if len(b) == 0 {
 		return b
 	}
-	switch rapid.IntRange(0, 7).Draw(t, "mut") {
+	switch rapid.IntRange(0, 8).Draw(t, "mut") {
+	case 8: // append a label-bearing option (search list, FQDN, NTP server FQDN) with a generated, possibly hostile, label buffer
+		if b[0] != 12 && b[0] != 13 {
+			w := gen.LabelWire(rapid.Bool().Draw(t, "hostile")).Draw(t, "labelwire")
+			if len(w) > 1200 {
+				w = w[:1200]
+			}
+			switch rapid.IntRange(0, 2).Draw(t, "carrier") {
+			case 0:
+				b = append(append(b, 0, 24, byte(len(w)>>8), byte(len(w))), w...)
+			case 1:
+				b = append(append(b, 0, 39, byte((len(w)+1)>>8), byte(len(w)+1), 1), w...)
+			default:
+				b = append(append(b, 0, 56, byte((len(w)+4)>>8), byte(len(w)+4), 0, 3, byte(len(w)>>8), byte(len(w))), w...)
+			}
+		}
 	case 0:
 		return b[:rapid.IntRange(0, len(b)).Draw(t, "cut")]
 	case 1, 2: // perturb a length field
